@@ -92,6 +92,9 @@ fn main() {
             let r = sy::compile_files(&sy::one_file(&text), "main.sy", &sy::CompileOpts { fuel: Some(50_000_000), ..Default::default() });
             println!("{} ticks={} ms={}", r.brief(), sy::last_fuel_used(), t0.elapsed().as_millis());
         }
+        "c07child" => {
+            std::process::exit(c07::child_main(args.get(1).map(|s| s.as_str()).unwrap_or("")));
+        }
         "c16child" => {
             std::process::exit(c16::child_main(args.get(1).map(|s| s.as_str()).unwrap_or("")));
         }
